@@ -577,24 +577,54 @@ def rule_r5(prog, res) -> None:
             res.violation("C09.R5", create, raw.node, f"a column is stored without the finite-checking conversion ({what})", key_extra="raw-store")
     else:
         res.ok("C09.R5", res.site(create, "asarray_chkfinite"), f"with chkfinite true all {n_stores} column store(s) go through numpy.asarray_chkfinite")
-    # (c) check_patch_ids raises on both sides of the range
+    # (c) check_patch_ids raises on both sides of the range, for the ids AS GIVEN: decided on the symbolic paths —
+    # the raising decision is folded for ids below, inside and above the range, and the compared array must not have
+    # been narrowed to the storage type before (a wrapped value passes any range check)
+    from .. import symx
+    from .c03 import _narrow_dtype
+
     res.touch(check_ids)
-    c2 = cfg_of(check_ids.node)
-    tests = [n for n in c2.nodes if n.kind == "test"]
-    lo = hi = False
-    for t in tests:
-        if not any(raise_dominated_by(c2, b) for b in branch_nodes_of(c2, t).values()):
-            continue
-        for cmp_ in [x for x in ast.walk(t.expr) if isinstance(x, ast.Compare)]:
-            txt = unparse(cmp_)
-            if "min" in txt and any(isinstance(o, (ast.Lt, ast.LtE)) for o in cmp_.ops):
-                lo = True
-            if "max" in txt and any(isinstance(o, (ast.Gt, ast.GtE)) for o in cmp_.ops):
-                hi = True
-    if lo and hi:
-        res.ok("C09.R5", res.site(check_ids), "raises below the lower and above the upper id bound")
+    cpaths = symx.explore(prog, check_ids, inline=symx.inline_private_helpers(prog))
+    lits = [t for p in cpaths for t, _ in p.literals()]
+    mins = sorted({unparse(y) for t in lits for y in ast.walk(t) if isinstance(y, ast.Call) and isinstance(y.func, ast.Attribute) and y.func.attr in ("min", "amin")} | {unparse(y) for t in lits for y in ast.walk(t) if isinstance(y, ast.Call) and (dotted(y.func) or "").split(".")[-1] in ("amin",)})
+    maxs = sorted({unparse(y) for t in lits for y in ast.walk(t) if isinstance(y, ast.Call) and isinstance(y.func, ast.Attribute) and y.func.attr in ("max", "amax")})
+    narrowed = None
+    for t in lits:
+        for y in ast.walk(t):
+            if isinstance(y, ast.Call):
+                dt = kwarg(y, "dtype") or (y.args[0] if isinstance(y.func, ast.Attribute) and y.func.attr == "astype" and y.args else None)
+                if dt is None and (dotted(y.func) or "").split(".")[-1] in ("asarray", "array", "asanyarray") and len(y.args) > 1:
+                    dt = y.args[1]
+                if dt is not None and _narrow_dtype(prog, check_ids, dt):
+                    narrowed = y
+    if narrowed is not None:
+        res.violation(
+            "C09.R5",
+            check_ids,
+            check_ids.node,
+            f"the patch ids are converted to the narrow storage type before their range is checked ({unparse(narrowed)[:60]}): an index that does not fit wraps around into the valid range and passes, "
+            "the records are silently stored in another patch",
+            key_extra="range-check-after-narrowing",
+        )
+    elif not mins and not maxs:
+        raise AnalysisError("C09.R5: the patch-id range check does not compare the minimum and maximum of the ids (idiom not recognised)")
+    elif not mins or not maxs:
+        res.violation("C09.R5", check_ids, check_ids.node, f"patch-id range check is one-sided (lower={bool(mins)}, upper={bool(maxs)})", key_extra="one-sided-range")
     else:
-        res.violation("C09.R5", check_ids, check_ids.node, f"patch-id range check is one-sided (lower={lo}, upper={hi})", key_extra="one-sided-range")
+        hi_txts = sorted({unparse(y) for t in lits for y in ast.walk(t) if isinstance(y, ast.Attribute) and y.attr == "max" and "iinfo" in unparse(y)})
+        verdict = {}
+        for label, lo_v, hi_v in (("below", -1, 5), ("inside", 0, 5), ("above", 0, 40000)):
+            env = {m_: lo_v for m_ in mins}
+            env.update({m_: hi_v for m_ in maxs})
+            env.update({h_: 32767 for h_ in hi_txts})
+            verdict[label] = symx.outcomes_under(cpaths, env)
+        if verdict["below"] == {"raise"} and verdict["above"] == {"raise"} and verdict["inside"] == {"return"}:
+            res.ok("C09.R5", res.site(check_ids), "raises below the lower and above the upper id bound, accepts ids inside (folded on the symbolic paths)")
+        elif verdict["inside"] == {"return"} and ("return" in verdict["below"] and "raise" not in verdict["below"] or "return" in verdict["above"] and "raise" not in verdict["above"]):
+            lo, hi = verdict["below"] == {"raise"}, verdict["above"] == {"raise"}
+            res.violation("C09.R5", check_ids, check_ids.node, f"patch-id range check is one-sided (lower={lo}, upper={hi})", key_extra="one-sided-range")
+        else:
+            raise AnalysisError(f"C09.R5: cannot fold the patch-id range check (outcomes below / inside / above the range: {verdict})")
     # (d) PatchMode.determine never falls off the end
     det = prog.func("PatchMode.determine")
     res.touch(det)
@@ -712,6 +742,10 @@ def rule_r6(prog, res) -> None:
 FORWARD_EXCEPTIONS = {
     ("yaw.utils.parallel", "comm"): "rank helpers (on_root / on_worker / get_size) are only used with the world communicator, which is also their default",
 }
+# parameter-name patterns that may be left out on purpose, with the reason
+FORWARD_OPTIONAL_SUFFIXES = {
+    "_name": "selectors of OPTIONAL input columns (weight_name, redshift_name, patch_name): an auxiliary reader may read fewer columns than the main one",
+}
 
 
 def rule_r7(prog, res) -> None:
@@ -724,8 +758,12 @@ def rule_r7(prog, res) -> None:
         fparams = set(fi.param_names()) - {"self", "cls"}
         if not fparams:
             continue
+        own_kw = fi.node.args.kwarg.arg if fi.node.args.kwarg is not None else None
         for c in calls_in(fi):
-            if any(isinstance(x, ast.Starred) for x in c.args) or any(k.arg is None for k in c.keywords):
+            # a ** spread hides what is passed — unless it is the function's own **parameter, which cannot contain
+            # any of the function's explicit parameters
+            spreads = [k for k in c.keywords if k.arg is None]
+            if any(isinstance(x, ast.Starred) for x in c.args) or any(not (isinstance(k.value, ast.Name) and k.value.id == own_kw) for k in spreads):
                 continue
             try:
                 tg = prog.resolve_call(fi, c)
@@ -773,6 +811,8 @@ def rule_r7(prog, res) -> None:
                         res.ok("C09.R7", res.site(fi, f"{gname}({p_}=…)"), "forwarded", nontrivial=False)
                     elif (fi.module.name, p_) in FORWARD_EXCEPTIONS:
                         res.ok("C09.R7", res.site(fi, f"{gname}() without {p_}"), "listed exception: " + FORWARD_EXCEPTIONS[(fi.module.name, p_)], nontrivial=False)
+                    elif any(p_.endswith(sfx) for sfx in FORWARD_OPTIONAL_SUFFIXES) and isinstance(dflt[p_], ast.Constant) and dflt[p_].value is None:
+                        res.ok("C09.R7", res.site(fi, f"{gname}() without {p_}"), "listed exception: " + next(v for k, v in FORWARD_OPTIONAL_SUFFIXES.items() if p_.endswith(k)), nontrivial=False)
                     else:
                         res.violation(
                             "C09.R7",
